@@ -130,6 +130,11 @@ RULES += [
     # a config that is rejected (sections must be a list) after its first option was already read: must fail every time and
     # must not change what the next operation sees
     {"config": {"mnemonics-full-match": False, "sections": ".text"}, "pattern": ["mov"]},
+    # one library macro with two formal parameters: invoked with both arguments, with one only, and bare (an argument that
+    # is not supplied stays the formal's own text - whatever an earlier invocation in the process supplied)
+    {"_extra": [["argl.yaml", [{"name": "@ld", "args": ["pa", "pb"], "pattern": [{"mov": ["pa", "pb"]}]}]]], "pattern": [{"@ld": None, "pa": "rax", "pb": "rbx"}, "add"]},
+    {"_extra": [["argl.yaml", [{"name": "@ld", "args": ["pa", "pb"], "pattern": [{"mov": ["pa", "pb"]}]}]]], "pattern": [{"@ld": None, "pa": "rax"}, "add"]},
+    {"macros": [{"name": "@ld", "args": ["pa", "pb"], "pattern": [{"mov": ["pa", "pb"]}]}], "pattern": ["@ld", "add"]},
     # rule text with YAML scalars whose reading depends on the loader (unquoted hex / octal-looking / boolean-looking names)
     {"_yaml": "pattern:\n  - mov: [0x28, '%rbx']\n  - add: [010, yes]\n"},
 ]
